@@ -208,12 +208,14 @@ def subspaces(tier, seed):
         sp.append(S("one-key-n1to3", 2, 1, 3, kinds=("float",), seed=seed))
         sp.append(S("two-keys-float+str-n1", 2, 1, 1, seed=seed))
         sp.append(S("two-keys-float+str-nomask-n2", 2, 2, 2, with_mask=False, seed=seed))
-        sp.append(S("two-keys-int+str-nomask-n3-light", 2, 3, 3, kinds=("int", "str_obj"), with_mask=False,
-                    funcs=("sum", "mean", "min", "size"), light=True, seed=seed))
+        sp.append(S("two-keys-int+int-nomask-n3-light", 2, 3, 3, kinds=("int", "int"), with_mask=False,
+                    funcs=("sum", "mean", "min"), light=True, seed=seed))
         sp.append(S("two-keys-float+str-masked-n2-light", 2, 2, 2, funcs=("sum", "mean", "size"), light=True,
                     seed=seed))
-        sp.append(S("three-keys-nomask-n1to2-light", 2, 1, 2, kinds=("int", "str_obj", "float"), with_mask=False,
-                    funcs=("sum", "mean", "size"), light=True, seed=seed))
+        sp.append(S("three-keys-nomask-n1to2-light", 2, 1, 2, kinds=("int", "str_obj", "int"), with_mask=False,
+                    funcs=("sum", "mean"), light=True, seed=seed))
+        sp.append(S("three-keys-nullable-nomask-n1-light", 2, 1, 1, kinds=("float", "str_obj", "float"),
+                    with_mask=False, funcs=("sum", "size"), light=True, seed=seed))
     else:
         sp.append(S("one-key-n1to4", 3, 1, 4, kinds=("float",), seed=seed))
         sp.append(S("two-keys-float+str-n1to3", 2, 1, 3, seed=seed))
